@@ -70,7 +70,9 @@ static std::string events(const Recorder& r,size_t from,size_t to){
 // source by tools/translators/mem.py)
 static bool reserved_indep(const char* key){
   static const char* pre[]={"BITPIX","SIMPLE","TYPE","ORDER","NAXIS","PERIOD","EXTEND","COMMENT"};
+  static const char* exact[]={"","END","HISTORY","CONTINUE","PCOUNT","GCOUNT"};   // exact matches (added by the C16 fix)
   for(const char* p: pre) if(strncmp(p,key,strlen(p))==0) return true;
+  for(const char* e: exact) if(strcmp(e,key)==0) return true;
   return false;
 }
 static int count_nonreserved(fitsfile* f,std::vector<std::array<size_t,3>>* out){
@@ -83,7 +85,10 @@ static int count_nonreserved(fitsfile* f,std::vector<std::array<size_t,3>>* out)
     cnt++;
     if(out){
       size_t kl=strlen(key), vl=strlen(value), strip=0;
-      if(vl+1>1 && value[0]=='\''){ strip = (vl+1>2 && value[vl-1]=='\'') ? 2 : 1; }
+      if(vl+1>1 && value[0]=='\''){ strip = (vl+1>2 && value[vl-1]=='\'') ? 2 : 1;
+        // the reader also un-doubles quotes inside the stripped text (fix b263a9d): each '' pair shortens the stored string by one
+        std::string inner(value+1, value+vl-(strip==2?1:0));
+        for(size_t q=0;q<inner.size();q++){ if(inner[q]=='\'' && q+1<inner.size() && inner[q+1]=='\''){ strip++; q++; } } }
       out->push_back({kl,vl,strip});
     }
   }
